@@ -11,7 +11,8 @@ package comp
 //	grid   state "boundx" (= bound + local features 4-6 and the peer's entity [3] with a device-diagnosis server, a
 //	       device-classification server and a device-diagnosis client bound to the local device-diagnosis server):
 //	       classifier {notify, reply, write} x function kind {list, state, heartbeat, manufacturer, unknown to the
-//	       feature} x 14 filter shapes x function element {present, absent} x data {filled, empty} x ackRequest
+//	       feature} x 14 filter shapes x function element {matching, absent, naming another function} x data {filled,
+//	       empty} x ackRequest
 //	       through the production entry point HandleSpineMesssage - EXHAUSTIVE.
 //	sweep  every function-data object the factory creates (feature type Generic = all functions, and
 //	       NodeManagement) x remoteWrite x persist x partial filter {nil, set} x delete filter {nil, set}: the merge
@@ -210,14 +211,21 @@ func robXShapes() []robXShape {
 	}
 }
 
-func robXMsg(k robXKind, sh robXShape, cls model.CmdClassifierType, withFunction, filled, ack bool, ctr uint64) []byte {
+func robXMsg(k robXKind, sh robXShape, cls model.CmdClassifierType, fnElem int, filled, ack bool, ctr uint64) []byte {
 	src, dst := k.nSrc, k.nDst
 	if cls == model.CmdClassifierTypeWrite {
 		src, dst = k.wSrc, k.wDst
 	}
 	cmd := k.cmd(filled)
-	if withFunction {
+	switch fnElem { // the function element: 0 names the data's function, 1 absent, 2 names ANOTHER function (of the other data shape)
+	case 0:
 		cmd.Function = util.Ptr(k.function)
+	case 2:
+		if k.name == "list" {
+			cmd.Function = util.Ptr(model.FunctionTypeDeviceDiagnosisStateData)
+		} else {
+			cmd.Function = util.Ptr(model.FunctionTypeLoadControlLimitListData)
+		}
 	}
 	cmd.Filter = sh.filters(k)
 	var ref *uint64
@@ -278,7 +286,7 @@ func robXSweepPoint(fd api.FunctionDataCmdInterface, remoteWrite, persist, fp, f
 }
 
 func TestRobFilters(t *testing.T) {
-	r := h.NewReport("rob-filters", "filter shapes of payload-carrying datagrams between announced features: classifier (notify, reply, bound write) x function kind (list function, three functions whose data is a scalar struct, function unknown to the addressed feature) x 14 filter shapes (none, partial, delete, both in either order, both in one filter, delete with selector / elements / both, two deletes, partial with selector, filter without / with empty cmdControl, empty filter) x function element present / absent x data filled / empty x ackRequest, exhaustive, through HandleSpineMesssage in state boundx; and the merge entry UpdateDataAny of every function-data object the factory of the tree under test creates x remoteWrite x persist x partial filter x delete filter, exhaustive; monitor: returns, no panic, not blocked, both peers' discovery reads answered afterwards")
+	r := h.NewReport("rob-filters", "filter shapes of payload-carrying datagrams between announced features: classifier (notify, reply, bound write) x function kind (list function, three functions whose data is a scalar struct, function unknown to the addressed feature) x 14 filter shapes (none, partial, delete, both in either order, both in one filter, delete with selector / elements / both, two deletes, partial with selector, filter without / with empty cmdControl, empty filter) x function element matching / absent / naming another function x data filled / empty x ackRequest, exhaustive, through HandleSpineMesssage in state boundx; and the merge entry UpdateDataAny of every function-data object the factory of the tree under test creates x remoteWrite x persist x partial filter x delete filter, exhaustive; monitor: returns, no panic, not blocked, both peers' discovery reads answered afterwards")
 	defer r.Write()
 	if robOtherReplay("rob-filters") {
 		return
@@ -310,13 +318,13 @@ func TestRobFilters(t *testing.T) {
 	for _, cls := range []model.CmdClassifierType{model.CmdClassifierTypeNotify, model.CmdClassifierTypeReply, model.CmdClassifierTypeWrite} {
 		for _, k := range robXKinds() {
 			for _, sh := range robXShapes() {
-				for v := 0; v < 8; v++ {
+				for v := 0; v < 12; v++ {
 					if robTooManyHangs(r) {
 						continue
 					}
-					withFunction, filled, ack := v&1 == 0, v&2 == 0, v&4 != 0
+					fnElem, filled, ack := v%3, v/3&1 == 0, v/6 != 0
 					ctr++
-					msg := robXMsg(k, sh, cls, withFunction, filled, ack, ctr)
+					msg := robXMsg(k, sh, cls, fnElem, filled, ack, ctr)
 					kind := "filter:" + string(cls) + ":" + k.name + ":" + sh.name
 					st := &robStats{}
 					key := robRun(r, []string{"state boundx", robOp("A", kind, msg)}, st)
@@ -329,7 +337,7 @@ func TestRobFilters(t *testing.T) {
 	}
 	r.Traces += total
 	r.Info["filter_grid"] = total
-	r.Info["filter_grid_exhaustive_over"] = "3 classifiers x 5 function kinds x 14 filter shapes x function present/absent x data filled/empty x ackRequest"
+	r.Info["filter_grid_exhaustive_over"] = "3 classifiers x 5 function kinds x 14 filter shapes x function element matching/absent/naming another function x data filled/empty x ackRequest"
 	r.Info["filter_grid_answered"] = accepted
 	// sweep
 	swept, functions := 0, 0
